@@ -12,9 +12,18 @@ PROP = {
         "Sonic.Props.C14.C14_deferred_at_limit",
         "Sonic.Model.Loop.step_disp_core",
     ],
-    "runs": LOOP_RUNS,
+    # second run: datagram reads and writes of packet conns and multicast peers issued at the dispatch limit (component of C12, whose
+    # monitor knows which datagram must reach which socket): "still completes with the result it would have had inline"
+    "runs": LOOP_RUNS + [{
+        "component": "mcast",
+        "quick": {"gen": [(1500, 30)]},
+        "thorough": {"gen": [(15000, 45)]},
+        "timeout": 1500,
+    }],
     "keys": ["nesting-deeper-than-limit", "dispatch-depth-not-restored", "regular-file-not-deferrable",
-             "operation-deferred-at-limit-never-completed", "completed-inline-at-the-dispatch-limit"],
+             "operation-deferred-at-limit-never-completed", "completed-inline-at-the-dispatch-limit",
+             "mcast.write-wrong-destination", "mcast.write-lost", "mcast.write-duplicated", "mcast.write-length", "mcast.read-stale-buffer",
+             "mcast.read-not-completed", "mcast.read-bytes", "mcast.panic"],
     "secondary_keys": ["nesting-deeper-than-limit", "operation-deferred-at-limit-never-completed", "completed-inline-at-the-dispatch-limit"],
     "rule": LOOP_RULE,
     "trusted_base": LOOP_TB,
